@@ -739,6 +739,18 @@ func (self *ReplicationClient) recvFiles() error {
 
 	var aofFile *AofFile = nil
 	aofIndex := uint32(0)
+	fillAofFiles := func(fromAofIndex uint32, toAofIndex uint32) error {
+		for i := fromAofIndex; i < toAofIndex; i++ {
+			emptyAofFile, oerr := self.aof.OpenAofFile(i)
+			if oerr != nil {
+				return oerr
+			}
+			if cerr := emptyAofFile.Close(); cerr != nil {
+				return cerr
+			}
+		}
+		return nil
+	}
 	for !self.closed {
 		err := self.readLock()
 		if err != nil {
@@ -762,6 +774,12 @@ func (self *ReplicationClient) recvFiles() error {
 					}
 				}
 			}
+			if aofIndex != 0 && aofIndex < self.aof.aofFileIndex {
+				err = fillAofFiles(aofIndex+1, self.aof.aofFileIndex)
+				if err != nil {
+					return err
+				}
+			}
 			self.recvedFiles = true
 			self.manager.slock.logger.Infof("Replication client recv files finish, current aofId %s", FormatAofId(self.currentAofId))
 			return nil
@@ -783,6 +801,12 @@ func (self *ReplicationClient) recvFiles() error {
 				}
 			}
 
+			if aofIndex != 0 && aofIndex < currentAofIndex {
+				err = fillAofFiles(aofIndex+1, currentAofIndex)
+				if err != nil {
+					return err
+				}
+			}
 			if currentAofIndex == self.aof.aofFileIndex && self.aof.aofFile != nil {
 				aofFile = self.aof.aofFile
 			} else {
